@@ -42,12 +42,17 @@ ASSUMPTIONS = ["binary64 rounding of the tools' arithmetic stays below 1e-9 of t
                "|T||m| (fields) on the generated inputs: vector norms in [0.2, 20] or exactly 0, cells 2^-3..15, at most 6 cells per axis in compared cases",
                "textures used for rotation / rescaling checks are generic (no exactly coplanar neighbour triples), because bergluescher_angle's "
                "guard `triple product == 0` is an exact float test"]
-UNPROVED = ["Berg-Luescher integrality for textures wrapping the sphere a whole number of times (degree of a simplicial map): oracle only",
-            "a single hedgehog is counted as exactly one Bloch point along every direction (numerical statement through round()): oracle only, sizes 4..12",
-            "topological charge unchanged by a quarter turn of the sample: oracle only (needs C12's index map composed with the stencils)",
-            "convolution theorem ifftn(fftn(T)*fftn(m)) = circular convolution is taken from C11 / the trusted FFT; the model starts at the circular convolution",
-            "the analytic identity arctan(bc/(aR))+arctan(ca/(bR))+arctan(ab/(cR)) = pi/2 is proved for the real arctan (Lemmas/C19Real) and enters "
-            "demag_trace as a hypothesis on the abstract leaf"]
+UNPROVED = ["Berg-Luescher integrality for textures wrapping the sphere a whole number of times (degree of a simplicial map): oracle only "
+            "(skyrmion textures of winding 1-2, both polarities, uniform rim)",
+            "a single hedgehog is counted as exactly one Bloch point along every direction (numerical statement through round()): oracle only, "
+            ">= 6 cells per axis, cell aspect ratio <= 2, singular point anywhere in the central cell block; smaller or more anisotropic meshes "
+            "do not resolve the singularity (observed: 4-5 cells or aspect 18:1 give 0)",
+            "topological charge unchanged by a quarter turn of the sample: oracle only (needs C12's index map composed with the edge stencils)",
+            "trace -1 at every frequency: PROVED in real space (N_xx+N_yy+N_zz = -delta with the real arcsinh/arctan/sqrt, theorem demag_trace); the "
+            "step to Fourier space (DFT of a delta at the central cell = pure phase, C11) and the convolution theorem "
+            "ifftn(fftn(T)*fftn(m)) = circular convolution are not composed formally: oracle (every k-cell) + correspondence",
+            "leaf hypotheses (sqrt homogeneous, acos range, Omega odd) are proved for the real functions (leaf_hypotheses_real, bl_angle_real) "
+            "but the density theorems are stated for abstract rational-valued leaves"]
 BUDGET = {"quick": 85, "thorough": 900}
 
 TOL = 1e-9
